@@ -138,6 +138,15 @@ macro_rules! float_case {
             "neg" => both(|| encp(-a_p), || enc(-a_n)),
             "addassign" => both(|| { let mut x = a_p; x += b_p; encpn(x) }, || { let mut x = a_n; x += b_n; encn(x) }),
             "mulassign" => both(|| { let mut x = a_p; x *= b_p; encpn(x) }, || { let mut x = a_n; x *= b_n; encn(x) }),
+            "subassign" => both(|| { let mut x = a_p; x -= b_p; encpn(x) }, || { let mut x = a_n; x -= b_n; encn(x) }),
+            "divassign" => both(|| { let mut x = a_p; x /= b_p; encpn(x) }, || { let mut x = a_n; x /= b_n; encn(x) }),
+            "remassign" => both(|| { let mut x = a_p; x %= b_p; encpn(x) }, || { let mut x = a_n; x %= b_n; encn(x) }),
+            "numcast" => both(|| opt(<$P as NumCast>::from($a as u64), encp), || opt(<$N as NumCast>::from($a as u64), enc)),
+            "numcasti" => both(|| opt(<$P as NumCast>::from($a as u64 as i64), encp), || opt(<$N as NumCast>::from($a as u64 as i64), enc)),
+            "radix" => {
+                let s = format!("{}.5", ($a as u64) % 100000);
+                both(|| opt(<$P as Num>::from_str_radix(&s, 10).ok(), encp), || opt(<$N as Num>::from_str_radix(&s, 10).ok(), enc))
+            }
             "pcmp" => both(|| format!("{:?}", a_p.partial_cmp(&b_p)), || format!("{:?}", a_n.partial_cmp(&b_n))),
             "eq" => both(|| format!("{}", a_p == b_p), || format!("{}", a_p.to_bytes() == b_p.to_bytes())),
             "zero" => both(|| encp(<$P>::zero()), || enc(<$N>::zero())),
